@@ -8,6 +8,9 @@ CHECKS = {
  'C01': ('reference-model trace monitor (executable ES5.1 interpreter as oracle) over generated programs x 6 routes; known defects as deviation models',
          'Every generated program is executed by the real interpreter through each submission route and by an independent ES5.1 reference interpreter; host-call trace, completion value and uncaught-exception class must agree. Exploration: held on the programs generated for the seed; says nothing about programs outside the generator.',
          'trusted base: internal/refjs (written from the ES5.1 text), internal/pgen generator, insertion-order enumeration assumption; number formatting inside the model via strconv'),
+ 'C02': ('crash/hang monitor: recover() at the API boundary + child-process isolation with the call announced on disk before it is made; full built-in surface x receiver kinds x argument kinds; hostile sources through every entry point; accessors on every produced value; stack-limit recursion shapes',
+         'Every function reachable from the global object is called with every receiver kind and sampled argument tuples through call/new/apply/bind and the Go API; every result goes through all Value/Object accessors; mutated programs and junk go through Run/Eval/Compile/Call/Object/eval/Function; recursion shapes around configured limits must end in a catchable RangeError. A Go panic, a process death or a confirmed hang is a violation. Exploration over a finite product (sampled in quick).',
+         'trusted base: none beyond the harness (no model needed); resource exhaustion (huge lengths / digit counts) excluded by construction'),
  'C03': ('generating-tree oracle: parser output compared node by node with the tree that produced the text, 6 renderings per tree',
          'The syntax tree that generated the source text is the oracle for the parser; exhaustive over ordered operator pairs, random over the rest of the grammar, with white-space/comment/ASI/parenthesis renderings. Exploration.',
          'trusted base: internal/gt renderer (ES5 precedence table, ASI rules 7.9.1) and canonical dumpers in internal/checks/c03'),
